@@ -397,3 +397,73 @@ package fontscan
 //@   loop 1 invariant [entry-header] ff.modTime == modTime && modTime == mtimeOf(info) && len(fa.dst) == old(len(fa.dst))
 //@   ensures [reuse-only-if-unchanged] implies(result == nil && old(has(fa.previousIndex, path)) && old(fa.previousIndex[path].modTime) == mtimeOf(info), sameslice(fa.dst[len(fa.dst)-1].footprints, old(fa.previousIndex[path].footprints)))
 //@   modifies unspecified
+//
+// ---------------------------------------------------------------------------------------------
+// Property C11, clause "its script set is exactly the set of scripts of those runes" (direction: no script is
+// missed). scriptsFromRanges walks the sorted rune ranges and the sorted script table together; the script of a rune
+// r is the Script of the table entry containing r (language.LookupScript's contract), so "entry j intersects range k"
+// is "some rune of range k has script ScriptRanges[j].Script".
+// The set itself is abstract here: inSet is uninterpreted and ScriptSet.insert (sort.Search with a closure, outside
+// the subset) is TRUSTED to add its argument and keep every member.
+//@ opaque inSet(ss ScriptSet, s language.Script) bool
+//@ trusted ScriptSet.insert
+//@   ensures [inserted] inSet(*ss, newScript)
+//@   ensures [keeps-members] forallV(s, newScript, old(inSet(*ss, s)), implies(old(inSet(*ss, s)), inSet(*ss, s)))
+//@   modifies *ss; all(language.Script)
+//
+//@ spec hits(lo rune, hi rune, j int) bool = language.ScriptRanges[j].Start <= hi && lo <= language.ScriptRanges[j].End
+//@ spec tableSorted() bool = forall(k, 0, len(language.ScriptRanges), language.ScriptRanges[k].Start <= language.ScriptRanges[k].End && forall(l, k+1, len(language.ScriptRanges), language.ScriptRanges[k].End < language.ScriptRanges[l].Start))
+//@ func scriptsFromRanges C11
+//@   mode int
+//@   requires [data-scriptRangesSorted] tableSorted()
+//@   requires [ranges-sorted] forall(k, 0, len(ranges), ranges[k][0] <= ranges[k][1] && forall(l, k+1, len(ranges), ranges[k][1] < ranges[l][0]))
+//@   ensures [no-script-missed] forall(k, 0, len(ranges), forall(j, 0, len(language.ScriptRanges), implies(hits(ranges[k][0], ranges[k][1], j), inSet(result, language.ScriptRanges[j].Script))))
+//@   modifies unspecified
+//@   loop 1 invariant [idx] 0 <= indexS && indexS <= len(language.ScriptRanges)
+//@   loop 1 invariant [done] forall(k, 0, rangeindex+1, forall(j, 0, len(language.ScriptRanges), implies(hits(ranges[k][0], ranges[k][1], j), inSet(out, language.ScriptRanges[j].Script))))
+//@   loop 1 invariant [passed] forall(j, 0, indexS, inSet(out, language.ScriptRanges[j].Script) || rangeindex+1 >= len(ranges) || language.ScriptRanges[j].End < ranges[rangeindex+1][0])
+//@   loop 2 invariant [idx] 0 <= indexS && indexS <= len(language.ScriptRanges)
+//@   loop 2 invariant [passed] forall(j, 0, indexS, inSet(out, language.ScriptRanges[j].Script) || language.ScriptRanges[j].End < start)
+//@   loop 3 invariant [idx] 0 <= indexS && indexS <= len(language.ScriptRanges)
+//@   loop 3 invariant [passed] forall(j, 0, indexS, inSet(out, language.ScriptRanges[j].Script) || language.ScriptRanges[j].End < start)
+//@   loop 3 invariant [done] forall(k, 0, rangeindex, forall(j, 0, len(language.ScriptRanges), implies(hits(ranges[k][0], ranges[k][1], j), inSet(out, language.ScriptRanges[j].Script))))
+//
+// ---------------------------------------------------------------------------------------------
+// Property C14, mechanism "family substitution and scoring order" (scoredFootprints.Less) and C11 "the script set
+// behaves as a mathematical set" (contains). The order is the documented lexicographic one:
+// strong substitutions first; among weak ones, footprints supporting the script first; then lower score, user
+// provided, not "mono", TrueType.
+//@ spec hasScript(ss ScriptSet, s language.Script) bool = exists(k, 0, len(ss), ss[k] == s)
+//@ func ScriptSet.contains C11 C14
+//@   mode int
+//@   requires [sorted] forall(k, 0, len(ss), forall(l, k+1, len(ss), ss[k] < ss[l]))
+//@   ensures [membership] result == hasScript(ss, s)
+//@   modifies nothing
+//@   loop 1 invariant [not-before] forall(k, 0, rangeindex+1, ss[k] < s)
+//
+//@ opaque monoName(family string) bool
+//@ opaque truetypeExt(file string) bool
+//@ trusted Footprint.isMonoHint
+//@   ensures [of-family] result == monoName(fp.Family)
+//@   modifies nothing
+//@ trusted Footprint.isTruetypeHint
+//@   ensures [of-file] result == truetypeExt(fp.Location.File)
+//@   modifies nothing
+//@ spec tieBreak(fpi Footprint, fpj Footprint) bool = (fpi.isUserProvided && !fpj.isUserProvided) || (fpi.isUserProvided == fpj.isUserProvided && ((!monoName(fpi.Family) && monoName(fpj.Family)) || (monoName(fpi.Family) == monoName(fpj.Family) && truetypeExt(fpi.Location.File) && !truetypeExt(fpj.Location.File))))
+//@ func less C14
+//@   mode int
+//@   requires fpi != nil && fpj != nil
+//@   ensures [lexicographic] result == (scorei < scorej || (scorei == scorej && tieBreak(*fpi, *fpj)))
+//@   ensures [irreflexive] implies(fpi == fpj && scorei == scorej, !result)
+//@   modifies nothing
+//
+//@ func scoredFootprints.Less C14
+//@   mode int
+//@   requires [indices] 0 <= i && i < len(sf.footprints) && 0 <= j && j < len(sf.footprints) && len(sf.scores) == len(sf.footprints) && 0 <= sf.footprints[i] && sf.footprints[i] < len(sf.database) && 0 <= sf.footprints[j] && sf.footprints[j] < len(sf.database)
+//@   requires [script-sets-sorted] forall(k, 0, len(sf.database[sf.footprints[i]].Scripts), forall(l, k+1, len(sf.database[sf.footprints[i]].Scripts), sf.database[sf.footprints[i]].Scripts[k] < sf.database[sf.footprints[i]].Scripts[l])) && forall(k, 0, len(sf.database[sf.footprints[j]].Scripts), forall(l, k+1, len(sf.database[sf.footprints[j]].Scripts), sf.database[sf.footprints[j]].Scripts[k] < sf.database[sf.footprints[j]].Scripts[l]))
+//@   ensures [strong-first] implies(sf.scores[i].strong != sf.scores[j].strong, result == sf.scores[i].strong)
+//@   ensures [strong-by-score] implies(sf.scores[i].strong && sf.scores[j].strong, result == (sf.scores[i].score < sf.scores[j].score || (sf.scores[i].score == sf.scores[j].score && tieBreak(sf.database[sf.footprints[i]], sf.database[sf.footprints[j]]))))
+//@   ensures [weak-script-first] implies(!sf.scores[i].strong && !sf.scores[j].strong && hasScript(sf.database[sf.footprints[i]].Scripts, sf.script) != hasScript(sf.database[sf.footprints[j]].Scripts, sf.script), result == hasScript(sf.database[sf.footprints[i]].Scripts, sf.script))
+//@   ensures [weak-then-score] implies(!sf.scores[i].strong && !sf.scores[j].strong && hasScript(sf.database[sf.footprints[i]].Scripts, sf.script) == hasScript(sf.database[sf.footprints[j]].Scripts, sf.script), result == (sf.scores[i].score < sf.scores[j].score || (sf.scores[i].score == sf.scores[j].score && tieBreak(sf.database[sf.footprints[i]], sf.database[sf.footprints[j]]))))
+//@   ensures [irreflexive] implies(i == j, !result)
+//@   modifies nothing
